@@ -510,6 +510,8 @@ class STensor:
 
     def _index(self, key) -> Tuple[List[int], List[int]]:
         """Basic indexing plus adjacent integer-sequence (advanced) indices: returns (idx list, new shape)."""
+        if isinstance(key, list) and any(isinstance(k, slice) or k is None or k is Ellipsis for k in key):
+            key = tuple(key)  # legacy numpy/torch behaviour: a list containing slices indexes like a tuple
         if not isinstance(key, tuple):
             key = (key,)
         key = list(key)
@@ -726,6 +728,12 @@ class STensor:
             vals.append(t.store[t.idx[off]])
         return STensor.from_flat(vals, new_shape, self.dtype)
 
+    def tile(self, *reps) -> "STensor":
+        reps = list(_shape_args(reps))
+        if len(reps) < self.ndim:
+            reps = [1] * (self.ndim - len(reps)) + reps
+        return self.repeat(*reps)
+
     def flip(self, *dims, **kw) -> "STensor":
         if "dims" in kw:
             dims = (kw["dims"],)
@@ -779,6 +787,32 @@ class STensor:
 
     def neg(self):
         return STensor.from_flat([-to_rat(x) for x in self.flat()], self.shape, self.dtype)
+
+    def _cmod(self, o, trunc: bool):
+        def f(x, y):
+            x, y = to_rat(x), to_rat(y)
+            if not (x.is_const() and y.is_const()):
+                raise Unsupported("modulo of symbolic values")
+            a, b = x.const_value(), y.const_value()
+            if b == 0:
+                raise InterpError("ZeroDivisionError", "modulo by zero")
+            if trunc:
+                q = int(a / b)
+                return Rat.of(a - q * b)
+            return Rat.of(a % b)
+        return self._ew(o, f)
+
+    def where(self, cond, other):
+        return where(cond, self, other)
+
+    def fmod(self, o):
+        return self._cmod(o, True)
+
+    def remainder(self, o):
+        return self._cmod(o, False)
+
+    def __mod__(self, o): return self.remainder(o)
+    def __floordiv__(self, o): return self.div(o, rounding_mode="floor")
 
     def square(self):
         return self.mul(self)
@@ -1483,7 +1517,9 @@ def grid_sample(input: STensor, grid: STensor, mode="bilinear", padding_mode="ze
     """
     if align_corners is None:
         align_corners = False
-    call_no = len(GRID_SAMPLE_CALLS)
+    import hashlib
+    # opaque results are named by a digest of the arguments: the same sampling of the same data is the same value
+    call_no = hashlib.md5(repr((input.tolist(), grid.tolist(), mode, padding_mode, bool(align_corners))).encode()).hexdigest()[:10]
     GRID_SAMPLE_CALLS.append({"input": input, "grid": grid, "mode": mode, "padding_mode": padding_mode, "align_corners": align_corners})
     N, C = input.shape[0], input.shape[1]
     spatial = list(input.shape[2:])
@@ -1620,7 +1656,117 @@ def interpolate(input: STensor, size=None, scale_factor=None, mode="nearest", al
     if isinstance(size, STensor):
         size = size.tolist()
     size = [simplify(v.item() if isinstance(v, STensor) else v) for v in (size if isinstance(size, (tuple, list)) else [size] * (input.ndim - 2))]
-    n = len(INTERPOLATE_CALLS)
+    import hashlib
+    n = hashlib.md5(repr((input.tolist(), list(size), mode, align_corners)).encode()).hexdigest()[:10]
     INTERPOLATE_CALLS.append({"input": input, "size": list(size), "mode": mode, "align_corners": align_corners})
     shape = list(input.shape[:2]) + list(size)
+    if list(input.shape[2:]) == list(size):
+        return input.clone() if input.dtype.is_floating_point else input.type(FLOAT)  # same size: identity for every mode/flag
     return STensor.from_flat([Rat.atom(f"ip{n}_{i}") for i in range(_numel(shape))], shape, FLOAT)
+
+
+def _ntuple(x, D):
+    if isinstance(x, STensor):
+        x = x.tolist()
+    if isinstance(x, (tuple, list)):
+        v = [simplify(a.item() if isinstance(a, STensor) else a) for a in x]
+        if len(v) == 1:
+            v = v * D
+    else:
+        v = [simplify(x)] * D
+    if len(v) != D or any(not isinstance(a, int) for a in v):
+        raise Unsupported(f"conv parameter {x!r}")
+    return v
+
+
+def convnd(input: STensor, weight: STensor, bias=None, stride=1, padding=0, dilation=1, groups=1) -> STensor:
+    """Model of F.conv{1,2,3}d (cross-correlation, documented semantics)."""
+    D = input.ndim - 2
+    if weight.ndim != D + 2:
+        raise InterpError("RuntimeError", f"conv: weight rank {weight.ndim} for input rank {input.ndim}")
+    if isinstance(padding, str):
+        raise Unsupported("conv padding mode string")
+    st, pd, dl = _ntuple(stride, D), _ntuple(padding, D), _ntuple(dilation, D)
+    N, Cin = input.shape[0], input.shape[1]
+    Cout, Cg = weight.shape[0], weight.shape[1]
+    k = list(weight.shape[2:])
+    if Cin != Cg * groups or Cout % groups:
+        raise InterpError("RuntimeError", f"conv: channels {Cin} vs weight {tuple(weight.shape)} groups {groups}")
+    sp = list(input.shape[2:])
+    out_sp = [(sp[d] + 2 * pd[d] - dl[d] * (k[d] - 1) - 1) // st[d] + 1 for d in range(D)]
+    if any(o <= 0 for o in out_sp):
+        raise InterpError("RuntimeError", "conv: output size is too small")
+    inp = input.tolist()
+    w = weight.tolist()
+    cout_g = Cout // groups
+    vals = []
+    for n in range(N):
+        for co in range(Cout):
+            g = co // cout_g
+            for o in itertools.product(*[range(x) for x in out_sp]):
+                acc = Rat.of(0)
+                for ci in range(Cg):
+                    chan = inp[n][g * Cg + ci]
+                    wk = w[co][ci]
+                    for kk in itertools.product(*[range(x) for x in k]):
+                        pos = [o[d] * st[d] + kk[d] * dl[d] - pd[d] for d in range(D)]
+                        if any(not 0 <= pos[d] < sp[d] for d in range(D)):
+                            continue
+                        a, b = chan, wk
+                        for d in range(D):
+                            a = a[pos[d]]
+                            b = b[kk[d]]
+                        a, b = to_rat(a), to_rat(b)
+                        if not (a.is_zero() or b.is_zero()):
+                            acc = acc + a * b
+                vals.append(acc)
+    out = STensor.from_flat(vals, [N, Cout] + out_sp, FLOAT)
+    if bias is not None:
+        out = out.add(bias.reshape([1, Cout] + [1] * D))
+    return out
+
+
+def conv_transpose_nd(input: STensor, weight: STensor, bias=None, stride=1, padding=0, output_padding=0, groups=1, dilation=1) -> STensor:
+    """Model of F.conv_transpose{1,2,3}d (documented semantics)."""
+    D = input.ndim - 2
+    st, pd, dl, op = _ntuple(stride, D), _ntuple(padding, D), _ntuple(dilation, D), _ntuple(output_padding, D)
+    N, Cin = input.shape[0], input.shape[1]
+    if weight.shape[0] != Cin or Cin % groups:
+        raise InterpError("RuntimeError", "conv_transpose: channel mismatch")
+    cout_g = weight.shape[1]
+    Cout = cout_g * groups
+    cin_g = Cin // groups
+    k = list(weight.shape[2:])
+    sp = list(input.shape[2:])
+    out_sp = [(sp[d] - 1) * st[d] - 2 * pd[d] + dl[d] * (k[d] - 1) + op[d] + 1 for d in range(D)]
+    acc: Dict[Tuple[int, ...], Rat] = {}
+    inp = input.tolist()
+    w = weight.tolist()
+    for n in range(N):
+        for ci in range(Cin):
+            g = ci // cin_g
+            for i in itertools.product(*[range(x) for x in sp]):
+                a = inp[n][ci]
+                for d in range(D):
+                    a = a[i[d]]
+                a = to_rat(a)
+                if a.is_zero():
+                    continue
+                for co in range(cout_g):
+                    for kk in itertools.product(*[range(x) for x in k]):
+                        pos = [i[d] * st[d] + kk[d] * dl[d] - pd[d] for d in range(D)]
+                        if any(not 0 <= pos[d] < out_sp[d] for d in range(D)):
+                            continue
+                        b = w[ci][co]
+                        for d in range(D):
+                            b = b[kk[d]]
+                        b = to_rat(b)
+                        if b.is_zero():
+                            continue
+                        key = (n, g * cout_g + co) + tuple(pos)
+                        acc[key] = acc.get(key, Rat.of(0)) + a * b
+    vals = [acc.get(ix, Rat.of(0)) for ix in itertools.product(*[range(x) for x in [N, Cout] + out_sp])]
+    out = STensor.from_flat(vals, [N, Cout] + out_sp, FLOAT)
+    if bias is not None:
+        out = out.add(bias.reshape([1, Cout] + [1] * D))
+    return out
